@@ -41,6 +41,19 @@ class App:
         tok = self.n
         path = environ["PATH_INFO"]
         self.running[tok] = path
+        if "/sblock" in path:
+            # a streaming application: writes a first piece, then waits (request still executing, output may be pending)
+            start_response("200 OK", [("Content-Type", "text/plain")])
+
+            def gen():
+                yield b"s" * 200
+                self.blocked.append(tok)
+                self.sched.block(lambda: tok in self.released, "app.blocked")
+                self.running.pop(tok, None)
+                self.finished.append(path)
+                yield b"end"
+
+            return gen()
         if "/block" in path:
             self.blocked.append(tok)
             self.sched.block(lambda: tok in self.released, "app.blocked")
@@ -68,7 +81,7 @@ def validate(case):
             raise C.CaseInvalid("clock")
         if op[0] in ("send", "partial", "reads", "stalls", "closes", "connect") and (len(op) < 2 or not isinstance(op[1], int) or op[1] < 0):
             raise C.CaseInvalid("index")
-        if op[0] == "send" and (len(op) != 3 or op[2] not in (True, False)):
+        if op[0] == "send" and (len(op) != 3 or op[2] not in (True, False, 2)):
             raise C.CaseInvalid("send")
 
 
@@ -145,7 +158,8 @@ def run_history(case):
                 if s.closed:
                     if m["open"]:
                         m["open"] = False
-                        if m["was_busy"] and not m["client_closed"]:
+                        still_running = any(pth.startswith("/c%d/" % i) for pth in app.running.values())
+                        if m["was_busy"] and still_running and not m["client_closed"]:
                             fail("busy-connection-reaped", "connection %d was closed by the server while one of its requests was queued or executing (idle for %.1fs, timeout %d)" % (
                                 i, now - m["la"], timeout))
                     continue
@@ -178,7 +192,7 @@ def run_history(case):
                     continue
                 if k == "send":
                     m["nreq"] += 1
-                    path = "/c%d/%s%d" % (conns.index(m), "block" if op[2] else "r", m["nreq"])
+                    path = "/c%d/%s%d" % (conns.index(m), "sblock" if op[2] == 2 else ("block" if op[2] else "r"), m["nreq"])
                     if m.get("half"):
                         s.inq.append(s2b(m["half"]))
                         m["half"] = None
@@ -251,8 +265,8 @@ def ops_strategy():
     return st.lists(st.one_of(
         st.tuples(st.just("connect"), st.integers(0, 1)).map(list),
         st.tuples(st.just("connect"), st.integers(0, 1)).map(list),
-        st.tuples(st.just("send"), idx, st.booleans()).map(list),
-        st.tuples(st.just("send"), idx, st.booleans()).map(list),
+        st.tuples(st.just("send"), idx, st.sampled_from([True, False, False, 2])).map(list),
+        st.tuples(st.just("send"), idx, st.sampled_from([True, False, False, 2])).map(list),
         st.tuples(st.just("partial"), idx).map(list),
         st.tuples(st.just("reads"), idx).map(list),
         st.tuples(st.just("stalls"), idx).map(list),
@@ -269,10 +283,14 @@ def motif_ops(draw):
     """k connections; some stay active by sending every `step` seconds, the others go idle (or stay busy)"""
     k = draw(st.integers(2, 4))
     ops = [["connect", 0] for _ in range(k)]
-    roles = [draw(st.sampled_from(["active", "idle", "busy", "partial"])) for _ in range(k)]
+    roles = [draw(st.sampled_from(["active", "idle", "busy", "partial", "streaming"])) for _ in range(k)]
     order = draw(st.permutations(list(range(k))))
     for i in order:
-        if roles[i] == "busy":
+        if roles[i] == "streaming":
+            if draw(st.booleans()):
+                ops.append(["stalls", i])
+            ops.append(["send", i, 2])
+        elif roles[i] == "busy":
             ops.append(["send", i, True])
         elif roles[i] == "partial":
             ops.append(["partial", i])
@@ -323,6 +341,9 @@ FIXED = [
     # a client that stops reading with output pending, then goes idle
     {"cfg": {"connection_limit": 100, "channel_timeout": 2, "cleanup_interval": 1}, "capacity": 60,
      "ops": [["connect", 0], ["stalls", 0], ["send", 0, False], ["clock", 5], ["clock", 5], ["clock", 5]]},
+    # a streaming application whose client has stopped reading: busy, must never be reaped
+    {"cfg": {"connection_limit": 100, "channel_timeout": 2, "cleanup_interval": 1}, "capacity": 60,
+     "ops": [["connect", 0], ["stalls", 0], ["send", 0, 2], ["clock", 5], ["clock", 5], ["clock", 200], ["finish"], ["reads", 0], ["clock", 1]]},
     # idle connect-only and half-sent request
     {"cfg": {"connection_limit": 100, "channel_timeout": 2, "cleanup_interval": 1}, "ops": [["connect", 0], ["connect", 0], ["partial", 1], ["clock", 10], ["clock", 10]]},
 ]
